@@ -34,6 +34,21 @@ Definition oracle_conv (inp obs : list N) : bool :=
             let e := if same then 1%N else 0%N in
             list_N_eqb obs [e; e; 1%N; 1%N]
         end
+      else if (sub =? 4)%N then
+        (* C11 for From<view>: a panicking Clone leaves nothing dropped twice (what was cloned
+           so far may be leaked); without a panic nothing is leaked either *)
+        match run_parser (C <~ p_nat ;; R <~ p_nat ;; s0 <~ p_N ;; s1 <~ p_N ;; e0 <~ p_N ;; e1 <~ p_N ;;
+                          m <~ p_bool ;; k <~ p_N ;; p_ret (C, R, (s0, s1, e0, e1), m, k)) rest with
+        | None => false
+        | Some (C, R, w, m, k) =>
+            match sub_rect (0, 0, C, R) (mkLevel m w) with
+            | None => list_N_eqb obs [0%N; 0%N; 0%N]
+            | Some (_, _, nc, nr) =>
+                if (k <? N.of_nat (nc * nr))%N then
+                  match obs with [ok; dbl; _] => (ok =? 0)%N && (dbl =? 0)%N | _ => false end
+                else list_N_eqb obs [1%N; 0%N; 0%N]
+            end
+        end
       else if (sub =? 3)%N then
         (* "equal exactly when dimensions and cells are equal": with a NaN cell the cells are
            not equal to themselves, so the array is equal to nothing - itself included *)
